@@ -337,6 +337,7 @@ func c17Type(c *core.Ctx, wt *types.Named) {
 			c.Check(stored, name+":stores-ch", alloc.Pos(), "wrapper stores the constructor's channel parameter in "+chField, "wrapper does not store the constructor's channel parameter in the field Unwrap returns")
 			// identity path
 			ident := false
+			onlyThen := true
 			for _, r := range core.Returns(fn) {
 				if core.Strip(r.Results[0]) == chParam[0] {
 					nilFacts := 0
@@ -347,9 +348,12 @@ func c17Type(c *core.Ctx, wt *types.Named) {
 					}
 					if nilFacts >= 2 {
 						ident = true
+					} else {
+						onlyThen = false
 					}
 				}
 			}
+			c.Check(onlyThen, name+":identity-only-when-both-nil", fn.Pos(), "the channel is returned unchanged only under both interceptors == nil", "the channel is returned unchanged on a path where an interceptor was given (e.g. a 'already wrapped with the same interceptors' shortcut): that decoration layer is dropped, so calls are not routed through every layer once")
 			c.Check(ident, name+":identity", fn.Pos(), "returns its channel unchanged on the both-interceptors-nil path", "no path returning the channel unchanged under both interceptors == nil")
 			// all other returns return the alloc
 			okRet := true
